@@ -9,7 +9,7 @@ def run(tier):
     r = run_shards(exe, [["--mode", "c16", "--seed", vlib.seed()]], san="rec", timeout=1800)
     v.absorb(r, "c16")
     c = r.counters
-    if c.get("c16.zones", 0) < 600 or c.get("c16.manual", 0) < 1000 or c.get("c16.eq_pairs", 0) < 10000 or c.get("c16.type_bytes", 0) < 512:
+    if c.get("c16.zones", 0) < 600 or c.get("c16.manual", 0) < 1000 or c.get("c16.eq_pairs", 0) < 10000 or c.get("c16.type_bytes", 0) < 512 or c.get("c16.restored_zones_asked_in_competition", 0) < 20000 or c.get("c16.earlier_zone_asked_after_later_one", 0) < 600:
         v.inconclusive_because("deciding counters too low: %r" % c)
     v.coverage.update({
         "evaluations": sum(n for k, n in c.items() if k.startswith("c16.") and "info" not in k and k != "c16.pool"),
